@@ -3,6 +3,7 @@
 package c20
 
 import (
+	"encoding/json"
 	"fmt"
 	"reflect"
 	"strings"
@@ -724,4 +725,35 @@ func runBatchReleases(r *lib.Report, th bool) {
 		checkBetaBR(r, br)
 		return true
 	})
+}
+
+// Replay re-executes one recorded case: {"kind": alpha-rollout|beta-rollout|alpha-batchrelease|beta-batchrelease, "object": ...}.
+func Replay(r *lib.Report, raw json.RawMessage) {
+	var c struct {
+		Kind   string          `json:"kind"`
+		Object json.RawMessage `json:"object"`
+	}
+	if err := json.Unmarshal(raw, &c); err != nil {
+		fmt.Println("HARNESS-ERROR bad replay file:", err)
+		return
+	}
+	fmt.Printf("replaying %s: %s\n", c.Kind, string(c.Object))
+	switch c.Kind {
+	case "alpha-rollout":
+		o := &v1alpha1.Rollout{}
+		_ = json.Unmarshal(c.Object, o)
+		checkAlphaRollout(r, o)
+	case "beta-rollout":
+		o := &v1beta1.Rollout{}
+		_ = json.Unmarshal(c.Object, o)
+		checkBetaRollout(r, o)
+	case "alpha-batchrelease":
+		o := &v1alpha1.BatchRelease{}
+		_ = json.Unmarshal(c.Object, o)
+		checkAlphaBR(r, o)
+	case "beta-batchrelease":
+		o := &v1beta1.BatchRelease{}
+		_ = json.Unmarshal(c.Object, o)
+		checkBetaBR(r, o)
+	}
 }
